@@ -17,8 +17,10 @@ pub fn check() -> Check {
     Check { id: "C01", plan, run_case, finalize }
 }
 
-const CONSTRUCTS: &[&str] = &[
+pub const CONSTRUCTS: &[&str] = &[
     "paren", "abs", "subscript", "fn", "unary-not", "if-then", "if-else", "mixed",
+    // recursion through user functions whose bodies are themselves deeply nested (frame cap x nesting cap)
+    "fn-rec-paren", "fn-rec-abs", "fn-rec-subscript", "fn-mutual", "fn-rec-if",
     // a single token (or short phrase) repeated: any recursion path that is not behind the nesting limit shows here
     "rep:-", "rep:+", "rep:NOT ", "rep:1+", "rep:1^", "rep:1<", "rep:1 AND ", "rep:A,", "rep:\"x\";", "rep::", "rep:?", "rep:A=", "rep:1,",
     "rep:FOR I=1 TO ", "rep:GOSUB 10:", "rep:DATA 1:", "rep:REM", "rep:ELSE ", "rep:THEN ", "rep:DEF FNA(X)=", "rep:INPUT ", "rep:READ ",
@@ -44,6 +46,10 @@ fn grid(tier: Tier) -> Vec<(usize, u64, u64, usize)> {
     v
 }
 
+fn grid_dev() -> Vec<(usize, u64, u64, usize)> {
+    grid(Tier::Thorough).into_iter().filter(|(_, _, stack, _)| *stack >= 2048).collect()
+}
+
 fn plan(tier: Tier) -> Vec<Workload> {
     vec![
         Workload::new("histories", tier.pick(60_000, 2_000_000)),
@@ -52,6 +58,8 @@ fn plan(tier: Tier) -> Vec<Workload> {
         Workload::new("catalogue_ship", tier.pick(6_000, 100_000)).ship(),
         Workload::new("depth", grid(tier).len() as u64),
         Workload::new("depth_ship", grid(tier).len() as u64).ship(),
+        // unoptimised build (largest frames; what `cargo test` and a debug CLI run): 2 and 8 MiB stacks, thorough only
+        Workload { name: "depth_dev", profile: "debug", cases: tier.pick(0, grid_dev().len() as u64), shards: crate::runner::ncores(), watchdog_s: 1500 },
     ]
 }
 
@@ -66,6 +74,22 @@ pub fn nested_line(construct: &str, d: usize) -> (Vec<String>, String) {
         "unary-not" => (vec![], format!("PRINT {}1{}", open("NOT ("), open(")"))),
         "if-then" => (vec![], format!("{}PRINT 1", open("IF 1 THEN "))),
         "if-else" => (vec![], format!("{}PRINT 2", open("IF 0 THEN PRINT 1 ELSE "))),
+        "fn-rec-paren" | "fn-rec-abs" | "fn-rec-subscript" => {
+            let k = d.min(62);
+            let (o, c) = match construct { "fn-rec-paren" => ("(", ")"), "fn-rec-abs" => ("ABS(", ")"), _ => ("A(", ")") };
+            (vec![format!("1 DEF FNF(X) = {}FNF(X + 1){}", o.repeat(k), c.repeat(k))], "PRINT FNF(1)".to_string())
+        }
+        "fn-mutual" => {
+            let k = d.min(40);
+            (vec![
+                format!("1 DEF FNA(X) = {}FNB(X){}", "(".repeat(k), ")".repeat(k)),
+                format!("2 DEF FNB(X) = {}FNA(X){}", "ABS(".repeat(k), ")".repeat(k)),
+            ], "PRINT FNA(1)".to_string())
+        }
+        "fn-rec-if" => {
+            let k = d.min(50);
+            (vec!["1 DEF FNF(X) = FNF(X + 1) + 1".to_string()], format!("{}PRINT {}FNF(1){}", "IF 1 THEN ".repeat(k / 2), "(".repeat(k / 2), ")".repeat(k / 2)))
+        }
         c if c.starts_with("rep:") => {
             let tok = &c[4..];
             let head = if tok.starts_with(|ch: char| ch == '-' || ch == '+' || ch == '1' || ch == 'N' || ch == '"' || ch == 'A') && !tok.starts_with("A=") { "PRINT " } else { "" };
@@ -275,8 +299,8 @@ fn run_case(ctx: &Ctx, index: u64, rep: &mut Report) {
             }
             rep.nontrivial(hash_str(&format!("{:?}{}", lines, mid_session)));
         }
-        "depth" | "depth_ship" => {
-            let g = grid(ctx.tier);
+        "depth" | "depth_ship" | "depth_dev" => {
+            let g = if ctx.workload == "depth_dev" { grid_dev() } else { grid(ctx.tier) };
             let (c, depth, stack_kib, a) = g[index as usize];
             let construct = CONSTRUCTS[c];
             let api = APIS[a];
